@@ -781,3 +781,217 @@ def fam_c15(tier, seed):
 
 FAMILIES.update({"C03": fam_c03, "C09": fam_c09, "C10": fam_c10, "C11": fam_c11, "C12": fam_c12, "C13": fam_c13,
                  "C15": fam_c15, "C16": fam_c16, "C18": fam_c18})
+
+# ------------------------------------------------------------------------------------------------
+# C02: head fidelity. The valid header lines over the abstract alphabet and their reference parse
+# come from TLC (specs/fn/HeadSyntax.tla via MC_Fn genC02); this concretiser maps symbols to bytes.
+
+_SYM = {
+    "l": "abcdefghijklmnopqrstuvwxyz", "U": "ABCDEFGHIJKLMNOPQRSTUVWXYZ", "d": "0123456789",
+    "y": "!#$%&'*+-.^_`|~", ":": ":", "s": " ", "h": "\t", "v": "\"(),/;<=>?@[\\]{}",
+}
+
+def _concretise_line(rec, rng):
+    syms = rec["line"]
+    by = [rng.choice(_SYM[s]) for s in syms]
+    colon = syms.index(":")
+    name = "".join(by[:colon])
+    raw = by[colon + 1:]
+    rs = syms[colon + 1:]
+    a = 0
+    while a < len(rs) and rs[a] in ("s", "h"):
+        a += 1
+    b = len(rs)
+    while b > a and rs[b - 1] in ("s", "h"):
+        b -= 1
+    # the slice must be exactly what the reference operator of the specification says
+    assert rs[a:b] == rec["value"] and syms[:colon] == rec["name"], "concretiser disagrees with HeadSyntax!FieldValue"
+    return name, "".join(raw), "".join(raw[a:b])
+
+def fam_c02(tier, seed):
+    import props, json as _json, os as _os
+    rng = _rng("C02", seed)
+    gen = _os.path.join("/verif/work", "C02gen")
+    _os.makedirs(gen, exist_ok=True)
+    lines_path = _os.path.join(gen, "lines.%s.ndjson" % tier)
+    props.fn_tlc("genC02", tier, lines_path, "/dev/null", "fn_genC02")
+    recs = [_json.loads(l) for l in open(lines_path)]
+    rng.shuffle(recs)
+    methods = ["GET", "HEAD", "POST", "PUT", "DELETE", "CONNECT", "OPTIONS", "TRACE", "PATCH",
+               "PURGE", "get", "Get", "M-SEARCH", "X!#$%&'*+-.^_`|~09", "GETX", "P"]
+    suffixes = ["", "/a/b?x=1&y=2", "?q=%7Euser/caf%C3%A9", "/;p=1,2:3@4=5", "/~!$&'()*+,;=:@[]", "//double//slash", "/" + "a" * 1100, "?" + "k=v&" * 300]
+    scs = []
+    k = 0
+    per_conn = 150
+    msgs = []
+    def flush(msgs, k, extra_tags):
+        d, j, ln = conn(msgs, 0)
+        sc = scenario("C02-%04d" % k, "C02", [(d, j, ln)], _single_app(), horizon_ms=200)
+        sc["tags"] = ["head-fidelity"] + extra_tags
+        return sc
+    i = 0
+    while i < len(recs):
+        nh = rng.choice([1, 1, 2, 3])
+        group = recs[i:i + nh]
+        i += nh
+        hdrs = []
+        for r in group:
+            name, rawv, val = _concretise_line(r, rng)
+            hdrs.append((name, rawv, val))
+        ver = rng.choice(["1.1", "1.1", "1.0"])
+        meth = rng.choice(methods)
+        m = Msg(method=meth, version=ver, target_suffix=rng.choice(suffixes) if rng.random() < 0.3 else "")
+        # explicit header list: raw value on the wire, stripped value expected
+        wire = [(n, rv) for n, rv, _ in hdrs]
+        if ver == "1.0":
+            wire.append(("Connection", "keep-alive"))
+        m.headers = wire
+        m.raw_head = None
+        msgs.append(m)
+        if len(msgs) >= per_conn:
+            scs.append(flush(msgs, k, ["generated-lines"]))
+            k += 1
+            msgs = []
+    if msgs:
+        scs.append(flush(msgs, k, ["generated-lines"]))
+        k += 1
+    # number of header fields 0..64, duplicates, long names / values / heads beyond the 1 KiB buffer
+    special = []
+    for n in (0, 1, 2, 17, 63, 64):
+        special.append(Msg(headers=[("X-H%d" % (i % 5), "v%d" % i) for i in range(n)]))
+    special.append(Msg(headers=[("Dup", "a"), ("dup", "b"), ("DUP", ""), ("Dup", "a")]))
+    special.append(Msg(headers=[("X-Long", "v" * 1100), ("Y", "z")]))
+    special.append(Msg(headers=[("N" * 300, "x"), ("Host", "h")]))
+    special.append(Msg(headers=[("A%d" % i, "x" * 200) for i in range(40)]))
+    special.append(Msg(headers=[("Host", "a:b:c"), ("X", "in  ner\t ws"), ("E", "")]))
+    for meth in methods:
+        special.append(Msg(method=meth, headers=[("Host", "x")]))
+    for sfx in suffixes:
+        special.append(Msg(target_suffix=sfx, headers=[("Host", "x")]))
+    scs.append(flush(special, k, ["special"]))
+    k += 1
+    # the wire form of Msg.build writes "name: value"; values that start with OWS symbols are already
+    # in rawv, so the single space after the colon is just one more optional whitespace
+    return scs
+
+FAMILIES["C02"] = fam_c02
+
+# ------------------------------------------------------------------------------------------------
+# C14: adversarial heads and bodies (class product with boundary values; seeded bytes inside classes)
+
+def fam_c14(tier, seed):
+    rng = _rng("C14", seed)
+    scs = []
+    k = 0
+    def add(msgs_or_raw, tags, prog=None, trailing=b"", plan_first=None):
+        nonlocal k
+        d, j, ln = conn(msgs_or_raw, 0, trailing=trailing)
+        if prog is not None:
+            d["prog"] = prog(d, ln)
+        sc = scenario("C14-%04d" % k, "C14", [(d, j, ln)], [serve("recv", "spawn")], horizon_ms=100, transport="tcp")
+        sc["tags"] = ["adversarial"] + tags
+        sc["d2only"] = True
+        scs.append(sc)
+        k += 1
+    handlers = {
+        "none-respond": lambda: respond(200, 3),
+        "none-drop": lambda: drop(),
+        "none-writer": lambda: writer([4], flush="last"),
+        "some-respond": lambda: _with_read(respond(200, 3), sizes=[2], upto=2),
+        "some-drop": lambda: _with_read(drop(), sizes=[2], upto=2),
+        "all-respond": lambda: _with_read(respond(200, 3), sizes=[4096], to_eof=True),
+    }
+    # declared Content-Length classes x bytes actually sent x handler
+    cls = [("0", 0), ("1024", 1024), ("1025", 1025), ("1e7", 10**7), ("1e14", 10**14), ("isize+1", 2**63), ("usize", 2**64 - 1),
+           ("usize+1", 2**64), ("30digits", 10**29)]
+    for (ctag, n), sent, h in itertools.product(cls, ("none", "three", "all"), sorted(handlers)):
+        if sent == "all" and n > 2000:
+            continue
+        if h.startswith("all") and (sent != "all"):
+            continue   # reading a body that never comes only ends at teardown; covered by "some"
+        if h.startswith("some") and sent == "none":
+            continue
+        if tier == "quick" and rng.random() > 0.7:
+            continue
+        nsent = {"none": 0, "three": min(3, n), "all": n}[sent]
+        raw = ("POST @URL@ HTTP/1.1\r\nHost: x\r\nContent-Length: %d\r\n\r\n" % n).encode()
+        ok = n < 2**64
+        body = req_body_bytes(0, 0, min(n, 5000))
+        m = Msg(method="POST", framing="cl", body_len=min(n, 5000), plan=handlers[h]()) if ok and n <= 5000 else None
+        if m is not None:
+            def prog(d, ln, nsent=nsent, m=None):
+                he = d["msgs"][0]["he"]
+                return [{"op": "send", "to": he + nsent}]
+            add([m, Msg()] if nsent == n else [m], ["content-length:" + ctag, "sent:" + sent, h], prog=prog)
+        else:
+            # lengths the harness cannot send in full: the ledger body is just what is sent
+            mm = Msg(method="POST", cls=("ok" if ok else "r400"), why="C16", raw_head=raw, plan=handlers[h]())
+            mm.body_len = 0
+            d, j, ln = conn([mm], 0, trailing=body[:nsent])
+            if ok:
+                j["msgs"][0].update({"bk": "large", "blen": nsent, "be": ln + 10**9})
+                d["msgs"][0]["body_hex"] = body[:nsent].hex()
+                d["msgs"][0]["exp"] = {"method": "POST", "url": "/c0m0", "ver": [1, 1], "headers": [["Host", "x"], ["Content-Length", str(n)]], "body_length": None}
+                d["msgs"][0]["exp"] = None
+            sc = scenario("C14-%04d" % k, "C14", [(d, j, ln + nsent)], [serve("recv", "spawn")], horizon_ms=100, transport="tcp")
+            sc["tags"] = ["adversarial", "content-length:" + ctag, "sent:" + sent, h, "declared-beyond-sent"]
+            sc["d2only"] = True
+            scs.append(sc)
+            k += 1
+    # chunk size lines
+    for ctag, line in (("1", b"1"), ("ffff", b"ffff"), ("16f", b"f" * 16), ("17hex", b"1" + b"0" * 16), ("neg", b"-5"), ("empty", b""),
+                       ("longline", b"a" * 70000), ("nul", b"\x00\x01"), ("hi", b"\xff\xfe")):
+        for h in ("none-respond", "some-respond", "none-drop", "all-respond"):
+            if tier == "quick" and rng.random() > 0.6:
+                continue
+            raw = b"POST @URL@ HTTP/1.1\r\nHost: x\r\nTransfer-Encoding: chunked\r\n\r\n"
+            mm = Msg(method="POST", cls="ok", raw_head=raw, plan=handlers[h]())
+            d, j, ln = conn([mm], 0, trailing=line + b"\r\nab")
+            j["msgs"][0].update({"bk": "chunked", "blen": 10**9, "be": ln + 10**9})
+            d["msgs"][0]["exp"] = None
+            d["msgs"][0]["body_hex"] = ""
+            sc = scenario("C14-%04d" % k, "C14", [(d, j, ln)], [serve("recv", "spawn")], horizon_ms=100, transport="tcp")
+            sc["tags"] = ["adversarial", "chunk-size:" + ctag, h]
+            sc["d2only"] = True
+            scs.append(sc)
+            k += 1
+    # many headers / long lines / odd bytes at head positions / truncation
+    heads = []
+    for n in (0, 100, 5000):
+        heads.append(("headers:%d" % n, b"GET @URL@ HTTP/1.1\r\n" + b"".join(b"X-%d: v\r\n" % i for i in range(n)) + b"\r\n", "ok"))
+    for ln_ in (10, 2**20, 2**23):
+        if tier == "quick" and ln_ > 2**20:
+            continue
+        heads.append(("line:%d" % ln_, b"GET @URL@ HTTP/1.1\r\nX-Long: " + b"v" * ln_ + b"\r\n\r\n", "ok"))
+        heads.append(("target:%d" % ln_, b"GET @URL@" + b"a" * ln_ + b" HTTP/1.1\r\nHost: x\r\n\r\n", "ok"))
+        heads.append(("nocrlf:%d" % ln_, b"G" * ln_, "trunc"))
+    for pos, byte in itertools.product(("method", "target", "version", "name", "value", "eol"), (b"\x00", b"\x07", b"\x7f", b"\x80", b"\xff")):
+        base = {"method": b"G%sT @URL@ HTTP/1.1\r\nHost: x\r\n\r\n", "target": b"GET @URL@%s HTTP/1.1\r\nHost: x\r\n\r\n",
+                "version": b"GET @URL@ HTTP/1.%s\r\nHost: x\r\n\r\n", "name": b"GET @URL@ HTTP/1.1\r\nHo%sst: x\r\n\r\n",
+                "value": b"GET @URL@ HTTP/1.1\r\nHost: x%sy\r\n\r\n", "eol": b"GET @URL@ HTTP/1.1\r%s\nHost: x\r\n\r\n"}[pos]
+        heads.append(("byte:%s:%02x" % (pos, byte[0]), base.replace(b"%s", byte), "any"))
+    for tag, raw, kind in heads:
+        # outcome classes differ (delivered / 400 / close); C14 only looks at panics, aborts and allocation,
+        # so the message is described as a plain close-class message and the connection is cut afterwards
+        mm = Msg(cls="close", why="C14", raw_head=raw)
+        d, j, ln = conn([mm], 0)
+        d["prog"] = [{"op": "send", "to": ln}, {"op": "sleep", "ns": 20 * MS}, {"op": "close"}]
+        sc = scenario("C14-%04d" % k, "C14", [(d, j, ln)], [serve("recv", "spawn")], horizon_ms=100, transport="tcp")
+        sc["tags"] = ["adversarial", tag]
+        sc["d2only"] = True
+        sc["judge"]["resonly"] = True
+        scs.append(sc)
+        k += 1
+        if kind != "trunc" and len(raw) < 5000:
+            for cut in sorted(set([1, len(raw) // 2, len(raw) - 3, len(raw) - 1])):
+                d, j, ln = conn([Msg(cls="close", why="C14", raw_head=raw)], 0)
+                d["prog"] = [{"op": "send", "to": cut}, {"op": "sleep", "ns": 5 * MS}, {"op": rng.choice(["close", "half", "reset"])}]
+                sc = scenario("C14-%04d" % k, "C14", [(d, j, ln)], [serve("recv", "spawn")], horizon_ms=100, transport="tcp")
+                sc["tags"] = ["adversarial", tag, "truncated:%d" % cut]
+                sc["d2only"] = True
+                sc["judge"]["resonly"] = True
+                scs.append(sc)
+                k += 1
+    return scs
+
+FAMILIES["C14"] = fam_c14
